@@ -402,6 +402,16 @@ pub fn build(m: &MLibT) -> Result<BuiltT, String> {
         via_keys.push(key);
         vias.push(ViaLayer { name: format!("via{}", i), top: ViaTarget::Metal(i + 1), bot: ViaTarget::Metal(i), size: (v.0 as isize, v.1 as isize).into(), raw: Some(key) });
     }
+    // the order in which a stack lists its via layers is free: bottom-up, top-down, or with a contact
+    // layer (primitive layer to metal 0) listed first
+    match hash_of(&m.stack) % 3 {
+        1 => vias.reverse(),
+        2 => {
+            let key = rawlayers.add(raw::Layer::from_pairs(49, &purps).map_err(|e| format!("{:?}", e))?);
+            vias.insert(0, ViaLayer { name: "contact".into(), top: ViaTarget::Metal(0), bot: ViaTarget::Primitive, size: (6isize, 10isize).into(), raw: Some(key) });
+        }
+        _ => {}
+    }
     let stack = Stack { units: raw::Units::Nano, prim: PrimitiveLayer::new((m.stack.prim.0 as isize, m.stack.prim.1 as isize).into()), metals, vias, rawlayers: Some(Ptr::new(rawlayers)), boundary_layer: Some(boundary) };
     let stack = stack.validate().map_err(|e| format!("generated stack does not validate: {:?}", e))?;
     let mut lib = tet::library::Library::new("tlib");
